@@ -121,7 +121,7 @@ def functions():
     def join(name, minnd, fixed_axis=None):
         def mk(r):
             sh = shapes(r, minnd)
-            k = int(r.integers(2, 4))
+            k = int(r.integers(1, 4))       # a sequence holding a single operand is a valid call too
             if fixed_axis is None and name in ("concatenate", "stack"):
                 ax = int(r.integers(-len(sh) - (1 if name == "stack" else 0), len(sh) + (1 if name == "stack" else 0))) if sh or name == "stack" else 0
             else:
@@ -201,6 +201,9 @@ def functions():
         sa, sb = gen.gen_shape_pair(r)
         common = numpy.broadcast_shapes(sa, sb)
         cshape = gen.sub_shape(r, common)
+        if r.random() < .3:
+            # the condition takes part in the broadcast: it may have more axes than both operands, also with one element
+            cshape = (1,) * int(r.integers(1, 3)) + (tuple(cshape) if r.random() < .5 else ())
         cond = (r.random(cshape) < .5)
         a = P(r, sa, names=gen.gen_names(r, 1, 2), kind="int")
         b = twin(r, a, sb) if r.random() < .35 else P(r, sb, names=gen.gen_names(r, 1, 2), kind="int")
